@@ -3,6 +3,7 @@ package buf
 import (
 	"bytes"
 	"fmt"
+	"io"
 	"net/http"
 	"sort"
 	"strings"
@@ -300,7 +301,16 @@ type shape struct {
 }
 
 var shapeHeaders = []string{"none", "X-A", "duplicate-values", "content-length-n", "content-length-0", "automatic-headers-suppressed"}
-var shapeBodies = []string{"none", "1-byte", "3-writes", "over-mem-threshold", "2-writes-then-empty-write", "only-an-empty-write"}
+var shapeBodies = []string{"none", "1-byte", "3-writes", "over-mem-threshold", "2-writes-then-empty-write", "only-an-empty-write",
+	// the body produced by io.Copy from a reader that has no WriteTo (a file, a pipe, an upstream body): reaches an io.ReaderFrom of the writer, if there is one
+	"io.Copy-of-a-plain-reader", "io.Copy-of-an-empty-plain-reader", "io.Copy-over-mem-threshold"}
+
+// plainReader hides every method but Read.
+type plainReader struct{ r io.Reader }
+
+func (p plainReader) Read(b []byte) (int, error) { return p.r.Read(b) }
+
+func shapeCopied(b int) bool { return b >= 6 }
 
 func (s shape) String() string {
 	return fmt.Sprintf("status=%d headers=%s body=%s discarded-attempt=%v", s.status, shapeHeaders[s.headers], shapeBodies[s.body], s.retry)
@@ -318,6 +328,12 @@ func shapeBody(b int) [][]byte {
 		return [][]byte{[]byte("hello "), []byte("world"), {}} // e.g. io.WriteString(w, "") of an empty template fragment
 	case 5:
 		return [][]byte{{}}
+	case 6:
+		return [][]byte{[]byte("copied-from-a-reader")}
+	case 7:
+		return [][]byte{{}}
+	case 8:
+		return [][]byte{bytes.Repeat([]byte("fedcba9876543210"), 8)}
 	}
 	return nil
 }
@@ -487,6 +503,10 @@ func shapeServer() (*lib.Server, func(shape)) {
 			w.WriteHeader(cur.status)
 		}
 		for _, p := range shapeBody(cur.body) {
+			if shapeCopied(cur.body) {
+				io.Copy(w, plainReader{bytes.NewReader(p)})
+				continue
+			}
 			w.Write(p)
 		}
 	})
